@@ -7,7 +7,7 @@ from hypothesis import strategies as st
 import gen_const
 
 BLANK_RUNS = [1, 2, 3, 126, 127, 128, 129, 254, 255, 256, 300]
-PAD_SIZES = [1, 2, 30, 62, 63, 64, 65, 70, 126, 127, 128, 129, 140]
+PAD_SIZES = [1, 2, 30, 62, 63, 64, 65, 70, 85, 126, 127, 128, 129, 140, 170]
 FILL_SIZES = [3, 20, 120, 250, 254, 255, 256, 257, 260]
 GLOBALS = ["x", "y", "z", "f", "g", "a", "b", "c"]
 FUTURES = ["annotations", "division", "generators", "nested_scopes", "print_function", "unicode_literals",
@@ -751,6 +751,17 @@ EXTRA_EXAMPLES = [
     # identical nested code objects in different parents ("cousins"), on one line
     "class A:\n    f = (lambda s: [i for i in s]); g = (lambda t, u: [i for i in t])\n",
     "x = y in {1e999 - 1e999, 1e999 * 0, 1.5}\n",
+    # a constant loaded again after an equal-keyed but distinct one was loaded in between (A, A', A)
+    "t = (1, 2)\ndef f(a=1, b=2): pass\nu = (1, 2)\n",
+    "try:\n    x\nfinally:\n    a = 1e999 * 0\n    b = 1e999 * 0\n    c = a\n",
+    # one line compiling to exactly 510 bytes (2 x 255) before the next line (<=3.9)
+    "f();" * 85 + "\ny = 1\n", "x = 1\n" + "f();" * 170 + "\ny = 1\n",
+    # nested code objects that differ only in a constant with a colliding hash (hash(-1) == hash(-2))
+    "g = [lambda: -1, lambda: -2]\nh = [lambda: (1, -1), lambda: (1, -2)]\n",
+    # dead code kept in the table on the same line as the last live statement
+    "def f(a):\n    a = 1\n    return a; a = 2\n",
+    # a cell variable whose name is also a free variable (__class__ in a class nested in a method)
+    "class A:\n    def f(self):\n        class X:\n            def g(self):\n                return __class__\n            x = __class__\n        return X\n",
     # <=3.9 peephole tuple folding with a constant index >= 256: line entry inside an instruction
     ";".join("x=%d" % (1000 + i) for i in range(260)) + "\ndef f(a=1,\n b=2): pass\n",
     ";".join("x=%d" % (1000 + i) for i in range(260)) + "\ndef f(a=1,\n b=2,\n c=3): pass\ny = (a,\n b)\n",
@@ -792,12 +803,18 @@ def many_cells_sources():
     return out
 
 
+def except_list_sweep():
+    """`except E as e:` bodies swept so that one member is an exact multiple of 254 bytes on one line,
+    directly followed by the compiler's line-less clean-up (3.10)"""
+    return ["try:\n    x\nexcept E as e:\n    [" + "a, " * n + "]\n" for n in range(118, 132)]
+
+
 def example_cases():
     out = []
     for src in REPO_EXAMPLES + EXTRA_EXAMPLES:
         for opt in (0, 2):
             out.append({"src": src, "mode": "exec", "optimize": opt, "min_version": 7, "_label": "examples"})
-    for src in many_cells_sources():
+    for src in many_cells_sources() + except_list_sweep():
         out.append({"src": src, "mode": "exec", "optimize": 0, "min_version": 7, "_label": "examples"})
     for i in range(39):  # _test_minimized/*.py are the first corpus entries
         out.append({"corpus": i, "optimize": 0, "min_version": 7, "_label": "repo_minimized"})
